@@ -103,8 +103,8 @@ CLAIMED = {
                 "values (complete, no bound). Containers: the generic T: Serialize / Visitor entry points are out of CBMC's reach, so the round trip "
                 "of arrays, dicts, structs and variants rests on the encoder-side mechanism contracts (serialize_seq, end_seq, struct element, fd index) "
                 "and the decoder-side mechanism contracts (ArrayDeserializer::new/next, struct, dict, variant; bounded buffers) being stated against the "
-                "SAME spec functions, plus a paper lemma -- those units run in this check and are counted separately as bounded. Strings bounded "
-                "(ASCII, L<=4 encoder / L<=3 decoder). NOT covered: dynamic Value/OwnedValue round trips, Option under option-as-array, GVariant.",
+                "SAME spec functions, plus a paper lemma -- those units run in this check and are counted separately as bounded. Strings: composed units too, bounded (ASCII without NUL, L<=3; separate encoder / decoder contracts up to L<=4). "
+                " NOT covered: dynamic Value/OwnedValue round trips, Option under option-as-array, GVariant.",
         "note": COMMON_TRUST + "`kani::assume(serializer returned Ok)` in the composed units is justified by the C01.ser_* units (Ok for every admissible state). "
                 "The decoder's padding callee is replaced by its exact contract stub (unit C03.parse_padding). Termination not verified.",
         "design_ref": "DESIGN.md §4 C02, §9",
@@ -147,7 +147,7 @@ CLAIMED = {
                 "partial_cmp agrees with cmp; reflexivity; try_clone / try_to_owned preserve ==, hash and the reported signature; the reported "
                 "signature is the D-Bus type code of the variant; T -> Value -> T returns the original bit pattern. The NaN clauses are split "
                 "off and are two recorded known findings (Value::F64(NaN) != itself while cmp says Equal). Quick tier: 9 same-variant units, 9 "
-                "single-variant units, 5 cross pairs; thorough: all 36 unordered pairs. NOT covered: Str/Signature/ObjectPath payloads, container "
+                "single-variant units, 5 cross pairs; thorough: all 36 unordered pairs. Str payloads: one bounded unit (ASCII, L<=2: == iff same bytes, cmp/hash consistent, signature `s`, &str round trip). NOT covered: Signature/ObjectPath payloads, container "
                 "values (Array, Dict, Structure, Value(Box), Maybe, Fd) -- they allocate and recurse, out of CBMC's reach -- and transitivity "
                 "(triples). The property's quantifier over arbitrary nested trees is therefore decided only at the scalar leaves.",
         "note": COMMON_TRUST + "Two known findings (NaN) are listed in known_findings.txt and excluded from the obligation count. The Hasher used is a "
